@@ -133,10 +133,15 @@ def compile_once(repo, src, workdir, cfg, pert, _prior=False):
             # other release); plant both kinds, so that a writer that fails to truncate, appends, or skips
             # existing files leaves a trace
             big = (pert['shim_seed'] + len(name)) % 2 == 0
-            with open(os.path.join(out, name), 'w') as f:
-                f.write('// stale output of an earlier compilation (%d)\n' % pert['shim_seed'])
+            # ... and it may have passed through another platform's tools: CR LF line ends, a byte-order mark
+            flavour = (pert['shim_seed'] // 7 + len(name)) % 4
+            eol = b'\r\n' if flavour in (1, 3) else b'\n'
+            with open(os.path.join(out, name), 'wb') as f:
+                if flavour == 2:
+                    f.write(b'\xef\xbb\xbf')
+                f.write(b'// stale output of an earlier compilation (%d)' % pert['shim_seed'] + eol)
                 if big:
-                    f.write('// stale line\n' * 120000)   # ~1.7 MB, longer than anything the compiler emits
+                    f.write((b'// stale line' + eol) * 120000)   # ~1.7 MB, longer than anything the compiler emits
     env = {k: v for k, v in os.environ.items() if not k.startswith(('PYTHON', 'LC_', 'LANG'))}
     env.update({'PYTHONHASHSEED': str(pert['hashseed']), 'TZ': pert['tz'], 'LANG': pert['lang'],
                 'LC_ALL': pert['lang'], 'PYTHONDONTWRITEBYTECODE': '1'})
